@@ -112,6 +112,9 @@ impl Family for Repro {
         self.counter += 1;
         let texts: Vec<String> = if case.get("k1").is_some() {
             collide_texts(case)
+        } else if case.get("family").is_some() {
+            // a graph of MC_CyclesGen (inheritance / aliases / containment, cyclic or not), one node per file
+            crate::fam_cycles::render_split(case)
         } else if let Some(t) = case.get("texts") {
             strs(t)
         } else {
